@@ -78,7 +78,10 @@ class Explorer:
         self.solver.set("timeout", self.query_timeout_ms)
         self.solver.set("random_seed", self.seed)
         self.model = None
-        self.known: dict[int, tuple] = {}  # term id -> (term, bool) implied on this path
+        self.known: dict = {}  # structural key -> bool implied on this path | (None, nadds) undecided
+        self._keep = []  # keeps z3 terms alive whose ids are used as keys
+        self.nadds = 0
+        ATOMS.clear()
         self.fresh = 0
         self.inputs: dict[str, object] = {}
         self.result = PathResult()
@@ -99,6 +102,7 @@ class Explorer:
                 raise PathAbort()
             return
         self.solver.add(c)
+        self.nadds += 1
         if self.model is not None:
             try:
                 if not z3.is_true(self.model.eval(c, model_completion=True)):
@@ -119,77 +123,94 @@ class Explorer:
             if not cond:
                 raise PathAbort()
             return
-        t = z3.simplify(cond.t)
-        if z3.is_true(t):
+        v = self.implied(cond)
+        if v is True:
             return
-        if z3.is_false(t):
+        if v is False:
             raise PathAbort()
-        self.add(t)
-        if self.model is None and not self.check():
-            raise PathAbort()
+        self.add(cond.t)
+        self.known[cond.key()] = True
+        self.known[(~cond).key()] = False
 
     # ---- deciding terms
-    def implied(self, t):
-        """True / False if t (resp. Not t) is implied by the path condition, else None.
+    def _norm(self, sb):
+        """SymBool (or z3 Bool) -> (python bool | None, SymBool)"""
+        if not isinstance(sb, SymBool):
+            sb = SymBool(sb)
+        if sb.cmp is None:
+            t = z3.simplify(sb._t)
+            if z3.is_true(t):
+                return True, sb
+            if z3.is_false(t):
+                return False, sb
+            sb = SymBool(t)
+        return None, sb
+
+    def implied(self, sb):
+        """True / False if sb (resp. its negation) is implied by the path condition, else None.
         Never forks."""
-        t = z3.simplify(t)
-        if z3.is_true(t):
-            return True
-        if z3.is_false(t):
-            return False
-        k = t.get_id()
+        v, sb = self._norm(sb)
+        if v is not None:
+            return v
+        k = sb.key()
         hit = self.known.get(k)
         if hit is not None:
-            return hit[1]
+            if hit is True or hit is False:
+                return hit
+            if hit[1] == self.nadds:
+                return None  # undecided, and nothing was added since
+        t = sb.t
         m = self.get_model()
         mv = z3.is_true(m.eval(t, model_completion=True))
         # the model shows `mv` is feasible; is the other side feasible too?
-        other = z3.Not(t) if mv else t
-        if self.check(other):
+        if self.check(z3.Not(t) if mv else t):
+            self.known[k] = (None, self.nadds)
             return None
-        self.known[k] = (t, mv)
+        self.known[k] = mv
+        self.known[(~sb).key()] = not mv
+        self._keep.append(t)
         return mv
 
-    def provable(self, t) -> bool:
-        return self.implied(t) is True
+    def provable(self, sb) -> bool:
+        return self.implied(sb) is True
 
-    def branch(self, t) -> bool:
-        """python bool for z3 Bool t, forking when both outcomes are feasible"""
-        t = z3.simplify(t)
-        if z3.is_true(t):
-            return True
-        if z3.is_false(t):
-            return False
-        k = t.get_id()
+    def branch(self, sb) -> bool:
+        """python bool for a SymBool, forking when both outcomes are feasible"""
+        v, sb = self._norm(sb)
+        if v is not None:
+            return v
+        k = sb.key()
         hit = self.known.get(k)
-        if hit is not None:
-            return hit[1]
+        if hit is True or hit is False:
+            return hit
+        t = sb.t
         if self.pos < len(self.prefix):
             d = self.prefix[self.pos]
             self.pos += 1
-            self.decisions.append(d)
-            self.add(t if d else z3.Not(t))
-            self.known[k] = (t, d)
-            return d
-        if len(self.decisions) >= self.max_depth:
-            raise Unsupported("max depth %d reached" % self.max_depth)
-        m = self.get_model()
-        mv = z3.is_true(m.eval(t, model_completion=True))
-        other = z3.Not(t) if mv else t
-        other_model = None
-        if self.check(other):
-            other_model = self.solver.model()
-        if other_model is not None:
-            self.work.append(self.decisions + [False])
-            d = True
-            self.model = m if mv else other_model
         else:
-            d = mv
+            if len(self.decisions) >= self.max_depth:
+                raise Unsupported("max depth %d reached" % self.max_depth)
+            m = self.get_model()
+            mv = z3.is_true(m.eval(t, model_completion=True))
+            if hit is not None and hit[1] == self.nadds:
+                # already known to be undecided under the current path condition
+                self.work.append(self.decisions + [False])
+                d = True
+                self.model = m if mv else None
+            elif self.check(z3.Not(t) if mv else t):
+                other_model = self.solver.model()
+                self.work.append(self.decisions + [False])
+                d = True
+                self.model = m if mv else other_model
+            else:
+                d = mv
+            self.pos = len(self.decisions) + 1
+            self.prefix = self.decisions
         self.decisions.append(d)
-        self.pos = len(self.decisions)
-        self.prefix = self.decisions
         self.add(t if d else z3.Not(t))
-        self.known[k] = (t, d)
+        self.known[k] = d
+        self.known[(~sb).key()] = not d
+        self._keep.append(t)
         return d
 
     # ---- inputs
@@ -261,15 +282,26 @@ class Explorer:
                 return True
             self.result.obligations.append((label, "violated", self.model_inputs()))
             return False
-        t = z3.simplify(cond.t)
-        neg = z3.Not(t)
-        if self.export_limit and len(self.exported) < self.export_limit:
-            self.exported.append(self.solver.to_smt2().replace("(check-sat)", "") + "(assert %s)\n(check-sat)\n" % neg.sexpr())
-        if self.check(neg):
-            self.result.obligations.append((label, "violated", self.model_inputs(self.solver.model())))
-            return False
-        self.result.obligations.append((label, "proved", None))
-        return True
+        v, cond = self._norm(cond)
+        if v is None:
+            hit = self.known.get(cond.key())
+            if hit is True or hit is False:
+                v = hit
+        if v is None:
+            neg = z3.Not(cond.t)
+            if self.export_limit and len(self.exported) < self.export_limit:
+                self.exported.append(self.solver.to_smt2().replace("(check-sat)", "") + "(assert %s)\n(check-sat)\n" % neg.sexpr())
+            if self.check(neg):
+                self.result.obligations.append((label, "violated", self.model_inputs(self.solver.model())))
+                return False
+            self.known[cond.key()] = True
+            self._keep.append(cond.t)
+            v = True
+        if v:
+            self.result.obligations.append((label, "proved", None))
+            return True
+        self.result.obligations.append((label, "violated", self.model_inputs()))
+        return False
 
     def tag(self, name):
         """named region witness: this path reached `name`"""
@@ -321,6 +353,58 @@ class Explorer:
 
 
 # ------------------------------------------------------------------ scalars
+# SymInt is an affine form  k + sum(coef_i * atom_i)  kept in pure Python; atoms are z3 Int
+# terms (inputs, array reads, div/mod/ite results ...).  z3 terms are only built when the
+# solver is really asked, and branch decisions are cached per path by structural key.
+ATOMS: dict = {}  # atom id -> z3 Int term (cleared at the start of every path)
+
+
+def _atom(t):
+    i = t.get_id()
+    ATOMS[i] = t
+    return i
+
+
+def _lin_combine(a, b, sb):
+    """a + sb*b for sorted tuples of (atom id, coef)"""
+    if not b:
+        return a
+    out = []
+    i = j = 0
+    la, lb = len(a), len(b)
+    while i < la and j < lb:
+        x, y = a[i], b[j]
+        if x[0] == y[0]:
+            c = x[1] + sb * y[1]
+            if c:
+                out.append((x[0], c))
+            i += 1
+            j += 1
+        elif x[0] < y[0]:
+            out.append(x)
+            i += 1
+        else:
+            out.append((y[0], sb * y[1]))
+            j += 1
+    out.extend(a[i:])
+    for y in b[j:]:
+        out.append((y[0], sb * y[1]))
+    return tuple(out)
+
+
+def _mk(lin, k, src=None):
+    if not lin:
+        return k
+    r = SymInt.__new__(SymInt)
+    r.lin, r.k, r._t, r.src = lin, k, None, src
+    return r
+
+
+def _lin_term(lin):
+    terms = [ATOMS[i] if c == 1 else ATOMS[i] * c for i, c in lin]
+    return terms[0] if len(terms) == 1 else z3.Sum(terms)
+
+
 def toz(x):
     if isinstance(x, SymInt):
         return x.t
@@ -344,41 +428,70 @@ def tobool(x):
 
 
 class SymBool:
-    __slots__ = ("t",)
+    """either a lazy comparison  (lin + k <= 0) / (lin + k == 0) [negated]  or a z3 Bool term"""
+    __slots__ = ("_t", "cmp")
 
-    def __init__(self, t):
-        self.t = t
+    def __init__(self, t=None, cmp=None):
+        self._t = t
+        self.cmp = cmp  # (op, lin, k, neg)   op in {"le", "eq"}
+
+    @property
+    def t(self):
+        if self._t is None:
+            op, lin, k, neg = self.cmp
+            lhs = _lin_term(lin)
+            t = (lhs <= -k) if op == "le" else (lhs == -k)
+            self._t = z3.Not(t) if neg else t
+        return self._t
+
+    def key(self):
+        if self.cmp is not None:
+            return self.cmp
+        return ("z", self._t.get_id())
 
     def __bool__(self):
-        return ex().branch(self.t)
+        return ex().branch(self)
 
     def _o(self, o):
         o = tobool(o)
         return z3.BoolVal(o) if isinstance(o, bool) else o.t
 
     def __and__(self, o):
+        if o is True:
+            return self
+        if o is False:
+            return False
         return SymBool(z3.And(self.t, self._o(o)))
 
     __rand__ = __and__
 
     def __or__(self, o):
+        if o is False:
+            return self
+        if o is True:
+            return True
         return SymBool(z3.Or(self.t, self._o(o)))
 
     __ror__ = __or__
 
     def __invert__(self):
-        return SymBool(z3.Not(self.t))
+        if self.cmp is not None:
+            op, lin, k, neg = self.cmp
+            if op == "le":  # not(d <= 0)  <=>  -d + 1 <= 0
+                return SymBool(cmp=("le", tuple((i, -c) for i, c in lin), 1 - k, False))
+            return SymBool(cmp=(op, lin, k, not neg))
+        return SymBool(z3.Not(self._t))
 
     def __eq__(self, o):
         if isinstance(o, (SymBool, bool)):
             return SymBool(self.t == self._o(o))
         if isinstance(o, (int, SymInt)):
-            return SymBool(toz(self) == toz(o))
+            return SymInt(toz(self)) == o
         return NotImplemented
 
     def __ne__(self, o):
         r = self.__eq__(o)
-        return r if r is NotImplemented else SymBool(z3.Not(r.t))
+        return r if r is NotImplemented else (~r if isinstance(r, SymBool) else not r)
 
     def __hash__(self):
         ex().hash_attempts += 1
@@ -393,20 +506,33 @@ class SymBool:
         return "<symbool>"
 
 
-def _cmp(op):
-    def f(self, o):
-        if isinstance(o, SymBool):
-            o = SymInt(toz(o))
-        if not isinstance(o, (int, SymInt)):
-            return NotImplemented
-        r = z3.simplify(op(self.t, toz(o)))
-        if z3.is_true(r):
-            return True
-        if z3.is_false(r):
-            return False
-        return SymBool(r)
+def _le0(d):
+    """d <= 0 for an affine d"""
+    if isinstance(d, int):
+        return d <= 0
+    return SymBool(cmp=("le", d.lin, d.k, False))
 
-    return f
+
+def _eq0(d):
+    if isinstance(d, int):
+        return d == 0
+    lin, k = d.lin, d.k
+    if lin[0][1] < 0:
+        lin, k = tuple((i, -c) for i, c in lin), -k
+    return SymBool(cmp=("eq", lin, k, False))
+
+
+def _num(o):
+    """int / SymInt view of an operand, or None"""
+    if isinstance(o, SymInt):
+        return o
+    if isinstance(o, bool):
+        return int(o)
+    if isinstance(o, int):
+        return o
+    if isinstance(o, SymBool):
+        return SymInt(toz(o))
+    return None
 
 
 def _mask_runs(m):
@@ -426,59 +552,104 @@ def _mask_runs(m):
 
 
 class SymInt:
-    __slots__ = ("t", "src")
+    __slots__ = ("lin", "k", "_t", "src")
 
     def __init__(self, t, src=None):
-        self.t = t
-        self.src = src  # (array, index term) when this value is a byte read from a rope
+        """from a z3 Int term (becomes one atom)"""
+        self.src = src  # (array, index) when this value is a byte read from a rope
+        if z3.is_int_value(t):
+            raise Unsupported("SymInt of a numeral - use a python int")
+        self._t = t
+        self.lin = ((_atom(t), 1),)
+        self.k = 0
 
-    __lt__ = _cmp(lambda a, b: a < b)
-    __le__ = _cmp(lambda a, b: a <= b)
-    __gt__ = _cmp(lambda a, b: a > b)
-    __ge__ = _cmp(lambda a, b: a >= b)
-    __eq__ = _cmp(lambda a, b: a == b)
-    __ne__ = _cmp(lambda a, b: a != b)
+    @property
+    def t(self):
+        if self._t is None:
+            t = _lin_term(self.lin)
+            self._t = t + self.k if self.k else t
+        return self._t
+
+    # ---- comparisons
+    def __lt__(self, o):
+        o = _num(o)
+        return NotImplemented if o is None else _le0(self - o + 1)
+
+    def __le__(self, o):
+        o = _num(o)
+        return NotImplemented if o is None else _le0(self - o)
+
+    def __gt__(self, o):
+        o = _num(o)
+        return NotImplemented if o is None else _le0(o - self + 1)
+
+    def __ge__(self, o):
+        o = _num(o)
+        return NotImplemented if o is None else _le0(o - self)
+
+    def __eq__(self, o):
+        o = _num(o)
+        return NotImplemented if o is None else _eq0(self - o)
+
+    def __ne__(self, o):
+        o = _num(o)
+        if o is None:
+            return NotImplemented
+        r = _eq0(self - o)
+        return (not r) if isinstance(r, bool) else ~r
 
     def __hash__(self):
         ex().hash_attempts += 1
         raise TypeError("unhashable type: 'SymInt'")
 
-    def _num(self, o):
-        if isinstance(o, (int, SymInt, SymBool)) and not isinstance(o, float):
-            return toz(o)
-        return None
-
+    # ---- affine arithmetic
     def __add__(self, o):
-        z = self._num(o)
-        return NotImplemented if z is None else simp(SymInt(self.t + z))
+        o = _num(o)
+        if o is None:
+            return NotImplemented
+        if isinstance(o, int):
+            return self if o == 0 else _mk(self.lin, self.k + o)
+        return _mk(_lin_combine(self.lin, o.lin, 1), self.k + o.k)
 
     __radd__ = __add__
 
     def __sub__(self, o):
-        z = self._num(o)
-        return NotImplemented if z is None else simp(SymInt(self.t - z))
+        o = _num(o)
+        if o is None:
+            return NotImplemented
+        if isinstance(o, int):
+            return self if o == 0 else _mk(self.lin, self.k - o)
+        return _mk(_lin_combine(self.lin, o.lin, -1), self.k - o.k)
 
     def __rsub__(self, o):
-        z = self._num(o)
-        return NotImplemented if z is None else simp(SymInt(z - self.t))
-
-    def __mul__(self, o):
-        z = self._num(o)
-        return NotImplemented if z is None else simp(SymInt(self.t * z))
-
-    __rmul__ = __mul__
+        o = _num(o)
+        if o is None:
+            return NotImplemented
+        return (-self) + o
 
     def __neg__(self):
-        return simp(SymInt(-self.t))
+        return _mk(tuple((i, -c) for i, c in self.lin), -self.k)
 
     def __pos__(self):
         return self
 
+    def __mul__(self, o):
+        o = _num(o)
+        if o is None:
+            return NotImplemented
+        if isinstance(o, int):
+            if o == 0:
+                return 0
+            return _mk(tuple((i, c * o) for i, c in self.lin), self.k * o)
+        return SymInt(self.t * o.t)
+
+    __rmul__ = __mul__
+
     def __abs__(self):
-        return simp(SymInt(z3.If(self.t >= 0, self.t, -self.t)))
+        return SymInt(z3.If(self.t >= 0, self.t, -self.t))
 
     def __invert__(self):
-        return simp(SymInt(-self.t - 1))
+        return -self - 1
 
     def _posconst(self, o, what):
         if isinstance(o, SymInt):
@@ -488,10 +659,20 @@ class SymInt:
         return o
 
     def __floordiv__(self, o):
-        return simp(SymInt(self.t / self._posconst(o, "//")))
+        c = self._posconst(o, "//")
+        if c == 1:
+            return self
+        if self.k % c == 0 and _b.all(co % c == 0 for _, co in self.lin):
+            return _mk(tuple((i, co // c) for i, co in self.lin), self.k // c)
+        return SymInt(self.t / c)
 
     def __mod__(self, o):
-        return simp(SymInt(self.t % self._posconst(o, "%")))
+        c = self._posconst(o, "%")
+        if c == 1:
+            return 0
+        if _b.all(co % c == 0 for _, co in self.lin):
+            return self.k % c
+        return SymInt(self.t % c)
 
     def __divmod__(self, o):
         return (self // o, self % o)
@@ -514,12 +695,12 @@ class SymInt:
 
     def __lshift__(self, o):
         if isinstance(o, int) and o >= 0:
-            return simp(SymInt(self.t * (1 << o)))
+            return self * (1 << o)
         raise Unsupported("<< by symbolic amount")
 
     def __rshift__(self, o):
         if isinstance(o, int) and o >= 0:
-            return simp(SymInt(self.t / (1 << o)))
+            return self // (1 << o)
         raise Unsupported(">> by symbolic amount")
 
     def __and__(self, o):
@@ -527,10 +708,10 @@ class SymInt:
             o = concretize(o)
         if not isinstance(o, int) or o < 0:
             raise Unsupported("& with a symbolic or negative mask")
-        r = z3.IntVal(0)
+        r = 0
         for lo, w in _mask_runs(o):
-            r = r + ((self.t / (1 << lo)) % (1 << w)) * (1 << lo)
-        return simp(SymInt(r))
+            r = r + ((self // (1 << lo)) % (1 << w)) * (1 << lo)
+        return r
 
     __rand__ = __and__
 
@@ -545,7 +726,7 @@ class SymInt:
     __rxor__ = __xor__
 
     def __bool__(self):
-        return ex().branch(self.t != 0)
+        return ex().branch(self != 0)
 
     def __index__(self):
         v = concretize(self)
@@ -575,51 +756,55 @@ class SymInt:
 
 
 def simp(x):
-    """syntactic simplification; returns a python int when the term is a numeral"""
-    if isinstance(x, SymInt):
-        s = z3.simplify(x.t)
-        if z3.is_int_value(s):
-            return s.as_long()
-        if s is not x.t:
-            return SymInt(s, x.src)
-        return x
+    """kept for readability at call sites: affine forms are always normalised"""
     return x
 
 
 def concretize(x):
     """python int if the value is unique on the current path (solver-proved), else x"""
-    x = simp(x)
     if not isinstance(x, SymInt):
         return x
     e = ex()
+    key = ("val", x.lin, x.k)
+    hit = e.known.get(key)
+    if hit is not None:
+        if hit[0] == "v":
+            return hit[1]
+        if hit[1] == e.nadds:
+            return x
     m = e.get_model()
     v = m.eval(x.t, model_completion=True)
-    if not z3.is_int_value(v):
-        return x
-    v = v.as_long()
-    return v if e.provable(x.t == v) else x
+    if z3.is_int_value(v):
+        v = v.as_long()
+        if e.provable(x == v):
+            e.known[key] = ("v", v)
+            return v
+    e.known[key] = (None, e.nadds)
+    return x
 
 
 def provable(cond) -> bool:
     cond = tobool(cond)
     if isinstance(cond, bool):
         return cond
-    return ex().provable(cond.t)
+    return ex().provable(cond)
 
 
 def decide(cond) -> bool:
     """python bool for cond, forking if undecided (same as bool(cond))"""
+    if cond is True or cond is False:
+        return cond
     cond = tobool(cond)
     if isinstance(cond, bool):
         return cond
-    return ex().branch(cond.t)
+    return ex().branch(cond)
 
 
 def ite(c, a, b):
     c = tobool(c)
     if isinstance(c, bool):
         return a if c else b
-    return simp(SymInt(z3.If(c.t, toz(a), toz(b))))
+    return SymInt(z3.If(c.t, toz(a), toz(b)))
 
 
 def is_sym(x):
